@@ -65,7 +65,8 @@ def provenance(c: dict, prop: str) -> str:
         selfref = any(f["kind"] == "with" and any(b["k"] == "ref" and any(x["n"] == b["m"] for x in f["binds"]) for b in f["binds"]) for f in ch)
         extk = "|ext=" + "+".join(sorted({b["k"] for f in ch for b in f["binds"] if b["k"] in ("inhfrom", "setv", "formal")})) \
             if (not with_binds) and any(b["k"] in ("inhfrom", "setv", "formal") for f in ch for b in f["binds"]) else ""
-        return f"with_frame_has_binds={with_binds}|inherit_in_chain={inh}|inner_rebinding_of_rhs_name={dyn}{extk}"
+        callk = "|call_argument_by_name" if ch and ch[-1].get("argn") else ""
+        return f"with_frame_has_binds={with_binds}|inherit_in_chain={inh}|inner_rebinding_of_rhs_name={dyn}{extk}{callk}"
     parts = []
     for tag in ("edit", "assign"):
         e = c["o"].get(tag)
@@ -191,6 +192,13 @@ def run_engine(prop: str, tier: str, seed: int) -> int:
     elif len(long3) > 150000:
         long3 = rnd.sample(long3, 150000)
     ext = model_chains(run, "MC_Scoping_emit_ext.cfg") if prop == "C10" else []      # inherit (s) a, set values, formals
+    # chains closed by a call whose argument is a name resolved at the call site (one frame beyond the others)
+    calls = [c for c in ext if c["ch"] and c["ch"][-1].get("argn")]
+    ext = [c for c in ext if not (c["ch"] and c["ch"][-1].get("argn"))]
+    if tier == "quick" and len(calls) > 12000:
+        calls = [c for c in calls if len(c["ch"]) <= 2] + rnd.sample([c for c in calls if len(c["ch"]) > 2], 12000)
+    run.coverage["call_site_argument_chains"] = len(calls)
+    ext = ext + calls
     rex = tlc.must_ok(tlc.run("MC_Scoping", "MC_Scoping_ext.cfg", workers=8, timeout=3600), "MC_Scoping ext") if prop == "C10" else None
     if rex is not None:
         run.add_model(rex, "MC_Scoping/MC_Scoping_ext.cfg (theorems with inherit-from / formals)")
